@@ -213,10 +213,12 @@ class Transformer:
     def apply_on_score(self, element, on=Mask(), **kwargs):
         # Freeze the part of the mask that is about this score before testing the chords
         on = on.child(element, **kwargs)
+        from musiclang import Score
         beat = 0
         idx = 0
         last_chord = None
-        score = None
+        # Start from an empty score so that a score without chords, or a filter that keeps none, gives an empty score
+        score = Score([])
         for m in element.chords:
             chord = self(m, on=on, chord_beat=beat, chord_idx=idx, last_chord=last_chord, **kwargs)\
                 if on(m, chord_beat=beat, chord_idx=idx, last_chord=last_chord, **kwargs) else self.get_default(m)
